@@ -23,6 +23,57 @@ HF = "pin::calculate_hash"
 VF = "pin::verify_client_pin_hash"
 
 
+
+def inverse_table(ctx, se, grid_ok):
+    """a lookup table built from the remapped grid: one loop `for (c, d) in (c0..).zip(grid)
+    { T[d] = c }` over a zeroed [u8; 10] - T[d] = c0 + (position of d in the grid), every digit
+    exactly once (the grid is a permutation of 0..9: trusted lemma, as for the search form).
+    Returns [(T value after the loop, c0)] for the loops of `se` of that shape whose grid
+    operand satisfies grid_ok."""
+    from rules import algos
+    out = []
+    for lp in util.for_loops(ctx, se):
+        ini = strip(lp["init"] or ("?",))
+        if not (util.is_call(ini, "std::iter::Iterator::zip") and len(ini[2]) == 2 and "iter::Zip" in (lp["resolved"] or "")):
+            continue
+        rf, gr = strip(ini[2][0]), strip(ini[2][1])
+        while util.is_call(gr) and (gr[1].endswith("<impl [T]>::iter") or gr[1].endswith("::into_iter") or gr[1] in util.IDENT_CALLS) and len(gr[2]) == 1:
+            gr = strip(gr[2][0])
+        if not (rf[0] == "agg" and rf[2] == "std::ops::RangeFrom" and strip(rf[4][0])[0] == "int" and grid_ok(gr)):
+            continue
+        c0 = strip(rf[4][0])[1]
+        elem = lp["elem"]
+        cnt, dig = ("field", elem, 0), ("deref", ("field", elem, 1))
+        head = lp["next_bb"]
+        loop = set()
+        for e in cfg.back_edges(se.body):
+            if e[1] == head:
+                loop |= cfg.natural_loop(se.body, e)
+        stores = [(k, loc, v) for k, (loc, v) in se.assigns.items() if k[0] in loop and loc[0] == "index"]
+        if len(stores) != 1:
+            continue
+        k, loc, v = stores[0]
+        ix = util.numnorm(loc[2])
+        while ix[0] == "cast" or (util.is_call(ix) and "From<u8> for usize" in ix[1] and len(ix[2]) == 1):
+            ix = util.numnorm(ix[2] if ix[0] == "cast" else ix[2][0])
+        if strip(ix) != strip(dig) or strip(v) != strip(cnt):
+            continue
+        # the table starts as [0; 10] and is only written by this loop
+        st = algos.loop_state(se, head)
+        tkey = loc[1]
+        if tkey not in st:
+            continue
+        init, step = st[tkey]
+        i0 = strip(init)
+        if not (i0[0] == "repeat" and strip(i0[1])[:2] == ("int", 0) and i0[2] == 10):
+            continue
+        idom = cfg.dominators(se.body)
+        if not all(cfg.dominates(idom, k[0], t_) for t_, h_ in cfg.back_edges(se.body) if h_ == head):
+            continue
+        out.append((algos.phi_of(se, head, tkey), c0))
+    return out
+
+
 def lookup_rule(ctx, rep, se):
     """the loops over the digit slice: per element, `*b = position of *b in remap_pin_grid(seed)`
     and `*b += 0x30`, fused or in two passes (in that order), nothing else"""
@@ -150,6 +201,41 @@ def lookup_rule(ctx, rep, se):
     good = False
     why = "%d passes over the digit slice" % len(passes)
     cur = lambda elem: strip(("deref", elem))
+    # ---- inverse-table form: T = table built from the grid; one pass `*b = T[*b] (+ '0')`
+    tables = []
+    for tv, c0 in inverse_table(ctx, se, lambda g: g == grid):
+        tables.append((strip(tv), c0))
+    for i in se.term_info.values():
+        # ... or built by a function of the crate from the grid: T = H(&grid)
+        if i.get("k") == "call" and i["name"] in ctx.fb.bodies and len(i["args"]) == 1 and strip(i["args"][0]) == grid and i["name"] != "pin::remap_pin_grid":
+            hse = ctx.wrap.run(i["name"])
+            if hse is not None:
+                for tv, c0 in inverse_table(ctx, hse, lambda g: g == ("param", 1)):
+                    if strip(hse.ret) == strip(tv):
+                        tables.append((strip(i["term"]), c0))
+    if len(passes) == 1 and len(passes[0][2]) == 1 and len(tables) == 1:
+        head, elem, st = passes[0]
+        tv, c0 = tables[0]
+        v = strip(st[0][1])
+        extra = 0
+        if v[0] == "field" and v[2] == 0 and v[1][0] == "binop" and v[1][1] == "AddWithOverflow":
+            v = ("binop", "Add", v[1][2], v[1][3])
+        if v[0] == "binop" and v[1] == "Add":
+            a_, b_ = strip(v[2]), strip(v[3])
+            if a_[0] == "int":
+                a_, b_ = b_, a_
+            if b_[0] == "int":
+                extra, v = b_[1], a_
+        look = v[0] == "index" and strip(v[1]) == tv
+        if look:
+            ix = util.numnorm(v[2])
+            while ix[0] == "cast" or (util.is_call(ix) and "From<u8> for usize" in ix[1] and len(ix[2]) == 1):
+                ix = util.numnorm(ix[2] if ix[0] == "cast" else ix[2][0])
+            look = strip(ix) == cur(elem)
+        if look and c0 + extra == 0x30:
+            rep.check(True, "transcript", HF, "digit-lookup", "one pass: *b = T[*b]%s with T[d] = %d + position of d in the remapped grid (inverse table)" % (" + 0x30" if extra else "", c0), "", body.loc())
+            return "table"
+    cur = lambda elem: strip(("deref", elem))
 
     def add30(v, inner_pred):
         v = strip(v)
@@ -191,6 +277,13 @@ def check(ctx, rep):
     somes = [(bi, si) for bi, si, s in util.blocks_constructing(body, "std::option::Option", "Some")]
     # (the Some of the hash, not the Some(builder) of a looked-through `EnteredPin::new(pin)?`)
     somes = [x for x in somes if not (strip(se.assigns[x][1][4][0])[0] == "agg" and strip(se.assigns[x][1][4][0])[1] == "adt" and strip(se.assigns[x][1][4][0])[2] in fb.adts)]
+    def _opt_hash(bi, si):
+        pl = body.blocks[bi]["stmts"][si]["place"]
+        t_ = body.local_ty(pl["l"]) if not pl["p"] else None
+        return t_ is None or "[u8; 20]" in t_.s
+    if len(somes) > 1:
+        # (and not the Some(digit slice) of a looked-through step that gates on the length)
+        somes = [x for x in somes if _opt_hash(*x)]
     nones = [(bi, si) for bi, si, s in util.blocks_constructing(body, "std::option::Option", "None")]
     if len(somes) != 1:
         rep.violation("transcript", HF, "some", "expected one Some(..) construction, found %d" % len(somes), body.loc())
@@ -236,9 +329,12 @@ def check(ctx, rep):
         sv = strip(val)
         if sv[0] == "binop" and sv[1] in ("AddWithOverflow", "Add") and (sv[3] == ("int", 0x30, "u8") or sv[2] == ("int", 0x30, "u8")):
             adds.append(bi)
-    rep.check(len(adds) == 1, "transcript", HF, "ascii-offset", "digits are offset by 0x30 before hashing", "expected exactly one `+ 0x30` on the digit bytes, found %d" % len(adds), body.loc())
     # ---- every digit d is replaced by '0' + (position of d in the remapped grid), in place
-    lookup_rule(ctx, rep, se)
+    mode = lookup_rule(ctx, rep, se)
+    if mode == "table":
+        rep.ok("transcript", HF, "ascii-offset", "the ASCII offset is part of the lookup table / the lookup step (decided with it)", body.loc())
+    else:
+        rep.check(len(adds) == 1, "transcript", HF, "ascii-offset", "digits are offset by 0x30 before hashing", "expected exactly one `+ 0x30` on the digit bytes, found %d" % len(adds), body.loc())
     # ---- 4..10 gate: both comparisons against the constants, None on the out-of-range edges, hashing only inside
     lo = fb.const_int("pin::MIN_PIN_LENGTH")
     hi = fb.const_int("pin::MAX_PIN_LENGTH")
